@@ -613,3 +613,108 @@ def tree_walk(t, fn, parents=()):
                     tree_walk(c, fn, p2)
             elif isinstance(v, dict):
                 tree_walk(v, fn, p2)
+
+
+def dispatch_arms(fn, sel_pred):
+    """every dispatch on a selector that satisfies sel_pred(expression), as (node, {label value: [statements]}, [default statements]):
+    a `switch(sel)` with its case labels (fall-through honoured), or an if / else-if chain of `sel == C` (`||` of them) tests.  The
+    selector of a chain may be a local that is defined once by an expression satisfying sel_pred."""
+    from .logic import literals, const_of
+    sd = single_defs(fn.d)
+    def is_sel(e):
+        e = strip(e)
+        if e is None:
+            return False
+        if sel_pred(e):
+            return True
+        return e.get('k') == 'DeclRefExpr' and e.get('id') in sd and sel_pred(strip(sd[e['id']]))
+    out = []
+    def labels_of(cond):
+        """constants C for which cond is `sel == C [|| sel == C2 ...]`, else None"""
+        def eqs(fs):
+            if len(fs) == 1 and fs[0][0] == 'cmp' and fs[0][1] == '==':
+                for a, b in ((fs[0][2], fs[0][3]), (fs[0][3], fs[0][2])):
+                    if is_sel(a) and const_of(b) is not None:
+                        return [const_of(b)]
+            if len(fs) == 1 and fs[0][0] == 'or':
+                r = []
+                for alt in fs[0][1]:
+                    x = eqs(alt)
+                    if x is None:
+                        return None
+                    r += x
+                return r
+            return None
+        return eqs(literals(cond, True))
+    chained = set()
+    def rec(t):
+        if isinstance(t, list):
+            for y in t:
+                rec(y)
+            return
+        if not isinstance(t, dict):
+            return
+        if t.get('k') == 'SwitchStmt' and is_sel(t.get('cond')):
+            arms, default, cur, is_def = {}, [], None, False
+            body = t.get('body')
+            for it in (body.get('body', []) if isinstance(body, dict) and body.get('k') == 'CompoundStmt' else [body]):
+                x = it
+                labs, d = [], False
+                seen_label = False
+                while isinstance(x, dict) and x.get('k') in ('CaseStmt', 'DefaultStmt'):
+                    seen_label = True
+                    if x.get('k') == 'CaseStmt':
+                        labs.append(x.get('value'))
+                    else:
+                        d = True
+                    x = x.get('sub')
+                if seen_label:
+                    cur = (cur or []) + labs if cur is not None else labs
+                    is_def = is_def or d
+                    for l in labs:
+                        arms.setdefault(l, [])
+                if cur is not None and isinstance(x, dict):
+                    for l in cur:
+                        arms[l].append(x)
+                    if is_def:
+                        default.append(x)
+                    if x.get('k') in ('BreakStmt', 'ReturnStmt', 'GotoStmt', 'ContinueStmt'):
+                        cur, is_def = None, False
+            out.append((t, arms, default))
+        if t.get('k') == 'IfStmt' and id(t) not in chained and labels_of(t.get('cond')) is not None:
+            arms, default = {}, []
+            x = t
+            while isinstance(x, dict) and x.get('k') == 'IfStmt' and labels_of(x.get('cond')) is not None:
+                chained.add(id(x))
+                for l in labels_of(x['cond']):
+                    arms.setdefault(l, []).append(x.get('then'))
+                x = x.get('else')
+            if x is not None:
+                default.append(x)
+            if len(arms) >= 2:
+                out.append((t, arms, default))
+        for k2 in ('body', 'then', 'else', 'sub', 'init', 'handlers'):
+            v = t.get(k2)
+            if isinstance(v, (dict, list)):
+                rec(v)
+    rec(fn.tree)
+    return out
+
+
+def alias_defs(f):
+    """locals that only name another object: references (never reseated) and pointer locals that are defined once and never
+    reassigned -> the expression they were bound to.  subst(e, alias_defs(f)) rewrites a use to the object it names."""
+    out = {}
+    sd = single_defs(f)
+    for b in f['blocks']:
+        for st in b['stmts']:
+            s_ = st['s']
+            if s_.get('k') == 'DeclStmt':
+                for v in s_['decls']:
+                    if v.get('init') is None:
+                        continue
+                    if v.get('ref') or (v.get('t') or {}).get('ref'):
+                        out[v['id']] = v['init']
+                    elif (v.get('t') or {}).get('p') and v['id'] in sd:
+                        out[v['id']] = v['init']
+    return out
